@@ -162,6 +162,8 @@ func doDump(u *ir.Universe, what string) {
 				}
 			}
 		}
+	case "exprs":
+		rules.DumpExprGuards(u, fn)
 	case "sites":
 		rules.DumpSites(u, fn)
 	case "paths":
